@@ -297,10 +297,15 @@ theorem step_inv1 (sp : Spec) (hstart : startTasks sp ≠ []) (w : World) (ev : 
             · split
               · rename_i hs
                 have : r.state ≠ .IDLE := by
-                  simp only [Bool.and_eq_true, beq_iff_eq] at hs
-                  rw [hs.1]; decide
+                  intro hi; rw [hi] at hs; exact absurd hs (by decide)
                 exact stay this _ _
-              · exact run { r with state := .RUNNING, processed := false } rfl rfl rfl _ _
+              · split
+                · rename_i hs
+                  have : r.state ≠ .IDLE := by
+                    simp only [Bool.and_eq_true, beq_iff_eq] at hs
+                    rw [hs.1]; decide
+                  exact stay this _ _
+                · exact run { r with state := .RUNNING, processed := false } rfl rfl rfl _ _
     | jobRefresh t =>
       simp only [step]
       split
